@@ -53,6 +53,7 @@ type c02Env struct {
 	polRules  map[string]string    // policy name -> rules as written (generator bookkeeping only)
 	tokPols   map[string][]string  // token label -> policy names
 	dead      map[string]bool      // tokens the generator revoked or expired (bias only, never used for the verdict)
+	qualified bool                 // with ns: requests (and capability questions) are made in the ROOT namespace with "<ns>/<path>"
 	cross     bool                 // with ns: policies and tokens live in the ROOT namespace (rules name "<ns>/…"), mounts and requests in ns
 	ns        *namespace.Namespace // non-nil: the whole case (mounts, policies, tokens, requests) lives in this child namespace
 	debug     bool
@@ -504,7 +505,13 @@ func (e *c02Env) reqRes(form, op, rpath, remote string) bool {
 	var resp *logical.Response
 	var err error
 	cls := vh.Catch(func() string {
-		resp, err = e.c.HandleRequest(ctx, req)
+		rctx := ctx
+		if e.qualified && e.ns != nil {
+			// the SAME request addressed from the root namespace with the namespace-qualified path
+			rctx = vhRootCtx()
+			req.Path = e.ns.Path + req.Path
+		}
+		resp, err = e.c.HandleRequest(rctx, req)
 		return c02Class(resp, err)
 	})
 	ops := e.p.StopRecording()
